@@ -119,6 +119,10 @@ def seqSpecOp : P String := do
   let cd ← cdP; let opts ← dictP; let ops ← list seqOpP
   pure (runSeq (fun n => match findSpec n with | some i => some i | none => findSetter n) opts cd 0 ScState.init ops)
 
+/-- scen.specdispatch : the hand-written option family ↦ value ↦ setters table -/
+def specDispatchOp : P String := pure (outL (fun fam =>
+  encodeStr fam.1 ++ " " ++ outL (fun v => encodeStr v.1 ++ " " ++ outL encodeStr v.2) fam.2) specDispatch)
+
 /-- scen.specnames : setters that have a specification row -/
 def specNamesOp : P String := pure (outL encodeStr (specTable.map (·.name)))
 
@@ -158,7 +162,7 @@ def stripOp : P String := do
   pure (encodeStr (pyStrip c s))
 
 def ops : List (String × P String) :=
-  [("scen.seq", seqOp), ("scen.seqspec", seqSpecOp), ("scen.specnames", specNamesOp), ("scen.dispatch", dispatchOp), ("scen.info", infoOp), ("scen.loader", loaderOp),
+  [("scen.seq", seqOp), ("scen.seqspec", seqSpecOp), ("scen.specnames", specNamesOp), ("scen.specdispatch", specDispatchOp), ("scen.dispatch", dispatchOp), ("scen.info", infoOp), ("scen.loader", loaderOp),
    ("scen.headkey", headKeyOp), ("scen.strip", stripOp)]
 
 end Ops.Scenario
